@@ -180,7 +180,7 @@ static int map_op(struct parsec_execution_stream_s *es, const void *src, void *d
     return 0;
 }
 
-static volatile int wd_armed, wd_secs = 45, wd_hang;
+static volatile int wd_armed, wd_secs = 120, wd_hang;
 static parsec_taskpool_t *wd_tp; static char wd_desc[128];
 static void *watchdog(void *arg)
 {
